@@ -21,7 +21,7 @@ RULE = ("sanitiser: names built from path-attack fragments (../, ..\\\\, absolut
         "one; distinct by case line")
 TRUSTED_BASE = ["model/Paths.v transcribes sanitize-filename 0.6 (non-windows options) and sanitize_file_path's PathBuf collection",
                 "zip parsing (async_zip) is trusted; python's zipfile rewrites the archives for the hostile cases"]
-ASSUMPTIONS = ["symlinks inside the target directory are out of scope", "external file blobs in archives are covered only by the escaping-name cases"]
+ASSUMPTIONS = ["symlinks inside the target directory are out of scope"]
 FRAG = ["..", ".", "", "files", "a", "con", "x" * 300, "\u00e9" * 130, "\u65e5" * 90, "a\u0001b", "a:b", "C:", "b|c", " ..", ".. ", "...", "\u0085", "a\u009fb", "\U0001F511" * 70, "q?*<>\"", "tab\tx"]
 SEPS = ["/", "\\", "//", "/./", "\\..\\", "/../"]
 
@@ -83,7 +83,8 @@ def gen_cases(rng, tier):
                 # a folder created early and deleted later (a gap in the database's folder row ids before a
                 # folder that still holds a secret), and a folder deleted last
                 ops = ["f0:2"] + ops + ["f0:3", "c0:b@3", "k0:2", "f0:4", "k0:4"]
-            spec.append("c18 e%d%s mode=export cbe=%s out=%s hist=%s" % (j, be, be, os.path.join(wd, "e%d%s.zip" % (j, be)), "|".join(ops)))
+            # every other account carries a file secret with two further attachments (external file blobs in the archive)
+            spec.append("c18 e%d%s mode=export cbe=%s att=%d out=%s hist=%s" % (j, be, be, 1 if j % 2 == 0 else 0, os.path.join(wd, "e%d%s.zip" % (j, be)), "|".join(ops)))
     sp = os.path.join(wd, "export.txt")
     open(sp, "w").write("\n".join(spec) + "\n")
     rc, txt = core.run_impl("c18", sp, timeout=900)
@@ -114,7 +115,8 @@ def gen_cases(rng, tier):
                         b = bytearray(data); b[pos] ^= 0xff; return bytes(b)
                     return data
                 rewrite(z, dst, mut)
-                out.append("c18 m%d mode=import cbe=%s zip=%s expect=reject what=content:%s:%d" % (k, be, dst, n.replace(" ", "_")[-24:], pos)); k += 1
+                kind = "blob" if (n.startswith("blobs/") or n.startswith("files/")) else "data"
+                out.append("c18 m%d mode=import cbe=%s zip=%s expect=reject what=content:%s:%d entry=%s" % (k, be, dst, n.replace(" ", "_")[-24:], pos, kind)); k += 1
         # (b) manifest checksum edited
         dst = os.path.join(wd, "m%d.zip" % k)
         def mutm(name, data, extra):
@@ -187,7 +189,7 @@ def oracle(case, obs):
                 fails.append({"oracle": "restore", "backend": kv.get("cbe"), "detail": "restored folders %s differ from the exported %s" % (have[:200], kv.get("want", "")[:200])})
     elif exp == "reject":
         if ikv.get("res") == "ok" or ikv.get("listed", "0") != "0":
-            fails.append({"oracle": "checksum_gate", "backend": kv.get("cbe"), "what": kv.get("what", "").split(":")[0],
+            fails.append({"oracle": "checksum_gate", "backend": kv.get("cbe"), "what": kv.get("what", "").split(":")[0], "entry": kv.get("entry", "-"),
                           "detail": "archive with %s was imported (res=%s, accounts in target=%s)" % (kv.get("what"), ikv.get("res"), ikv.get("listed"))})
     return fails
 
